@@ -94,7 +94,7 @@ func NewCtx(prop, tier string) *Ctx {
 	}
 	budget := 100 * time.Second
 	if tier == "thorough" {
-		budget = 14 * time.Minute
+		budget = 30 * time.Minute
 	}
 	if s := os.Getenv("VERIF_BUDGET_S"); s != "" {
 		if n, err := strconv.Atoi(s); err == nil && n > 0 {
